@@ -139,6 +139,30 @@ def parse_log(data, res):
         res.incomplete = res.events[-1]['k']
 
 
+class _FailingRaw(io.RawIOBase):
+    """the diagnostic stream with one failing write: the k-th write(2) on
+    stderr returns an error (EPIPE: the reader went away; ENOSPC/EFBIG: the
+    log file is full); every later one fails too"""
+
+    def __init__(self, raw, k, err):
+        self.raw, self.k, self.err, self.n, self.sink = raw, k, err, 0, None
+
+    def writable(self):
+        return True
+
+    def fileno(self):
+        return self.raw.fileno()
+
+    def write(self, b):
+        self.n += 1
+        if self.n >= self.k:
+            if self.sink is not None and self.n == self.k:
+                self.sink.log_json('X', {'k': -1, 'why': 'stderr-write-failed',
+                                         'n': self.n, 'text': bytes(b)[:80].decode('ascii', 'replace')})
+            raise OSError(self.err, os.strerror(self.err))
+        return self.raw.write(b)
+
+
 def _child(script, argv, env, cwd, stdin_fd, out_fd, err_fd, logfd, world,
            plan, contracts):
     code = 1
@@ -160,14 +184,23 @@ def _child(script, argv, env, cwd, stdin_fd, out_fd, err_fd, logfd, world,
         sys.argv = list(argv)
         sys.stdin = io.TextIOWrapper(io.FileIO(0, 'r', closefd=False),
                                      encoding='utf-8', errors='strict')
+        # the encoding of the standard streams is the locale's: the case may
+        # ask for another one (PYTHONIOENCODING / a legacy locale)
+        enc = (plan or {}).get('stdout_encoding') or 'utf-8'
         sys.stdout = io.TextIOWrapper(io.FileIO(1, 'w', closefd=False),
-                                      encoding='utf-8', errors='strict')
-        sys.stderr = io.TextIOWrapper(io.FileIO(2, 'w', closefd=False),
-                                      encoding='utf-8',
+                                      encoding=enc, errors='strict')
+        raw_err = io.FileIO(2, 'w', closefd=False)
+        fail_at = (plan or {}).get('stderr_fail_at')
+        if fail_at:
+            raw_err = _FailingRaw(raw_err, int(fail_at),
+                                  (plan or {}).get('stderr_errno', 32))
+        sys.stderr = io.TextIOWrapper(raw_err, encoding=enc,
                                       errors='backslashreplace',
                                       line_buffering=True)
         from . import shim
         sh = shim.install(world.R, world.mounts, world.uid, plan, logfd)
+        if fail_at:
+            raw_err.sink = sh
         if contracts:
             from . import contracts as _c
             _c.SINK.reset()
